@@ -191,6 +191,10 @@ def classify(results):
 def cbmc_flags(q):
     fl = ["--unwinding-assertions", "--drop-unused-functions", "--no-malloc-may-fail",
           "--no-standard-checks", "--no-built-in-assertions"]
+    if getattr(q, "restrict_fp", None):
+        # the 'dereferenced function pointer must be ...' assertions generated by
+        # goto-instrument --restrict-function-pointer are built-in assertions: keep them checked
+        fl.remove("--no-built-in-assertions")
     for c in q.checks:
         fl.append(CHECK_FLAGS[c])
     if q.unwind is not None:
@@ -240,6 +244,16 @@ def compile_goto(ctx, q, qdir, overlays, defs):
         if rc != 0:
             raise InternalError("goto-instrument failed for %s:\n%s" % (q.name, (e or o)[-2000:]))
         out = out2
+    if getattr(q, "restrict_fp", None):
+        out3 = os.path.join(qdir, "q3.gb")
+        cmd3 = ["goto-instrument"]
+        for site, targets in q.restrict_fp:
+            cmd3 += ["--restrict-function-pointer", "%s/%s" % (site, ",".join(targets))]
+        cmd3 += [out, out3]
+        rc, o, e, _, _ = run_cmd(cmd3, cwd=qdir, timeout=600)
+        if rc != 0 or not os.path.exists(out3):
+            raise InternalError("goto-instrument --restrict-function-pointer failed for %s:\n%s" % (q.name, (e or o)[-2000:]))
+        out = out3
     return out, cmd, units, srcs
 
 
@@ -295,6 +309,8 @@ def native_replay(ctx, q, qdir, overlays, defs, srcs, replay_file):
         return "reproduced", txt[-3000:], cmd
     if rc == 77:
         return "assume-failed", txt[-3000:], cmd
+    if rc == 127 or "error while loading shared libraries" in txt or "symbol lookup error" in txt:
+        return "build-failed", txt[-3000:], cmd
     if rc not in (0, 77, 78) or "AddressSanitizer" in txt or "runtime error" in txt:
         return "reproduced-crash", txt[-3000:], cmd
     return "not-reproduced", txt[-3000:], cmd
@@ -321,7 +337,8 @@ def run_query(ctx, q, tag="", extra_defs=(), mut_overlay=None, want_replay=True,
         if q.patches:
             ov = os.path.join(qdir, "ov")
             make_overlay(ctx, ov, [(p[0], p[1], p[2], True, 0) for p in q.patches], overlays)
-            overlays.append(ov)
+            # the patched copy is derived from the (possibly mutated) file: it must shadow the mutant overlay
+            overlays.insert(0, ov)
         if q.gen:
             q.gen(ctx, q, qdir, overlays)
         defs = list(q.defs) + list(extra_defs)
@@ -445,7 +462,7 @@ def run_query(ctx, q, tag="", extra_defs=(), mut_overlay=None, want_replay=True,
         res.setdefault("seconds", round(time.time() - t0, 2))
         if not ctx.keep:
             # keep only small files
-            for fn in ("q.gb", "q2.gb", "native.exe", "out.json", "trace.json"):
+            for fn in ("q.gb", "q2.gb", "q3.gb", "native.exe", "out.json", "trace.json"):
                 try:
                     os.unlink(os.path.join(qdir, fn))
                 except OSError:
